@@ -136,13 +136,18 @@ func newParentController(
 		}
 	}()
 	for _, child := range cc.Spec.ChildResources {
-		childInformer, err := dynInformers.Resource(child.APIVersion, child.Resource)
-		if err != nil {
-			return nil, fmt.Errorf("can't create informer for child resource: %w", err)
-		}
 		groupVersion, err := schema.ParseGroupVersion(child.APIVersion)
 		if err != nil {
 			return nil, fmt.Errorf("can't parse child resource groupVersion: %w", err)
+		}
+		if childInformers.Get(groupVersion.WithResource(child.Resource)) != nil {
+			// The resource is listed more than once; one subscription serves all
+			// entries (and is the only one Stop() and the clean-up above can close).
+			continue
+		}
+		childInformer, err := dynInformers.Resource(child.APIVersion, child.Resource)
+		if err != nil {
+			return nil, fmt.Errorf("can't create informer for child resource: %w", err)
 		}
 		childInformers.Set(groupVersion.WithResource(child.Resource), childInformer)
 	}
